@@ -83,3 +83,43 @@ func Harness_C08_StoreBatchConflicts() { c08StoreBatchConflicts() }
 
 // Harness_C08_StoreBatchConflictsCollide: constant hash (every validation takes the point read).
 func Harness_C08_StoreBatchConflictsCollide() { c08StoreBatchConflicts() }
+
+// c08StoreReclaimPartial: the registry's warm state of a reclaimed entry carries TWO flags (log end
+// loaded, idempotency membership loaded). A lease generation that only loaded the log end (LEO()) or
+// only did trusted follower appends is closed, the channel is re-acquired, and a stored (sender,
+// client number) is offered again: refused with ErrConflict in both modes, store unchanged.
+func c08StoreReclaimPartial() {
+	s, m := c07FreshStore()
+	c07Seed(s, m) // rows 1..3 = (a,x) (b,x) (a,y), HW = 2
+	s.reopen()    // fresh registry: nothing loaded
+	switch zzsym.Choice("partial", 3) {
+	case 0:
+		// a lease that only asks for the log end
+		leo, err := s.log.LEO(context.Background())
+		zzsym.Assert(err == nil && leo == m.leo, "store: LEO after reopen differs")
+	case 1:
+		// a follower lease: one trusted-contiguous apply with a fresh pair
+		c07ApplyFetch(s, m, "f")
+	default:
+		// no access at all before the lease is released
+	}
+	c08Reclaim(s)
+	zzsym.Reach("store-reclaimed-partial")
+	mode := AppendStrict
+	if zzsym.Choice("mode", 2) == 1 {
+		mode = AppendServerAllocatedMessageID
+	}
+	holder := m.rows[zzsym.Choice("dup.row", len(m.rows))]
+	m.nextID++
+	m.ids = append(m.ids, m.nextID)
+	_, err := s.log.Append(context.Background(), []Record{{ID: m.nextID, FromUID: holder.uid, ClientMsgNo: holder.cno, Payload: []byte{'d'}, ServerTimestampMS: 1}}, AppendOptions{Mode: mode})
+	zzsym.Assert(err != nil && errors.Is(err, dberrors.ErrConflict), "store: after a lease that loaded only part of the entry state was reclaimed, a stored (sender, client number) is accepted again")
+	c07CheckAgainst(s, m)
+	zzsym.Assert(s.log.Close() == nil && s.db.Close() == nil, "store: final close failed")
+}
+
+// Harness_C08_StoreReclaimPartial: ordinary hash behind the membership filter.
+func Harness_C08_StoreReclaimPartial() { c08StoreReclaimPartial() }
+
+// Harness_C08_StoreReclaimPartialCollide: constant hash.
+func Harness_C08_StoreReclaimPartialCollide() { c08StoreReclaimPartial() }
